@@ -2,21 +2,26 @@
 """debug helper: tools/dbg.py <family> <scenario id> [repeat] [tier] - drives one scenario repeatedly, validates, prints rejected traces"""
 import sys, json, os
 sys.path.insert(0, os.path.dirname(os.path.abspath(__file__)))
-import lib, brokerlib as B, brokerfam as F
+import lib, brokerlib as B, brokerfam as F, clientfam as CF
 from props import c06
 
 fam, sid = sys.argv[1], int(sys.argv[2])
 rep = int(sys.argv[3]) if len(sys.argv) > 3 else 20
 tier = sys.argv[4] if len(sys.argv) > 4 else "quick"
 seed = int(os.environ.get("VERIF_SEED", "1"))
-sc = c06.scenarios(seed, tier) if fam == "deliver" else getattr(F, fam)(seed, tier)
+kind = "broker"
+if fam in ("outgoing", "incoming"):
+    kind = "client"
+    sc = getattr(CF, fam)(seed, tier)
+else:
+    sc = c06.scenarios(seed, tier) if fam == "deliver" else getattr(F, fam)(seed, tier)
 base = [s for s in sc if s["id"] == sid][0]
 scripts = []
 for i in range(rep):
     s = json.loads(json.dumps(base)); s["id"] = 90000 + i; scripts.append(s)
 run = lib.Run("DBG", "quick", 1, "model_checking"); run.wd = lib.workdir("DBG")
-tfile, crashes = B.run_scripts(run, scripts, "dbg")
-res, events, r = B.validate(run, tfile, "dbg")
+tfile, crashes = B.run_scripts(run, scripts, "dbg", kind=kind)
+res, events, r = B.validate(run, tfile, "dbg", kind=kind)
 print(json.dumps(base)[:3000])
 print("crashes", crashes)
 bad = [tr for tr, x in res.items() if not x["ok"]]
